@@ -7,3 +7,14 @@ package internal
 //@   effectfree -- abstraction: the stage log (object behind Stages) is not modelled; frame obligation below keeps it honest
 
 //@ coverage [record-codec] {C06}: ChannelState, EncodedVoucher, EncodedVoucherResult
+
+//@ func (internal.CborGenCompatibleNode).IsNull {C06,C12}
+//@   ensures [def] result == (sn.Node == nil || sn.Node == datamodel.Null)
+//@ func (*internal.CborGenCompatibleNode).MarshalCBOR {C06}
+//@   ensures [encodes-node-or-null] calls(dagcbor.Encode) == 1 && last(dagcbor.Encode) && only(dagcbor.Encode, TypedNode.Representation) && all(dagcbor.Encode, $1 == w) &&
+//@       ((sn == nil || (*sn).Node == nil) ==> all(dagcbor.Encode, $0 == datamodel.Null)) && result == ret(dagcbor.Encode, 0)
+//@ extern func (github.com/ipld/go-ipld-prime/node/basicnode.Prototype__Any).NewBuilder
+//@   ensures result != nil
+//@ func (*internal.CborGenCompatibleNode).UnmarshalCBOR {C06}
+//@   modifies sn.Node
+//@   ensures [decodes-deferred-bytes] result == nil ==> calls(Deferred.UnmarshalCBOR) == 1 && calls(dagcbor.Decode) == 1 && before(Deferred.UnmarshalCBOR, dagcbor.Decode)
